@@ -55,6 +55,11 @@ def configs(tier):
             if g in ('P3', 'K3', 'K2') and not R0:
                 out.append(dict(entry='fast_nonMarkov_SIR', family='fpp', graph=g, I0=I0, R0=R0, full=True, tmax='sym', ties=(g != 'K3'),
                                 tags=['fpp', g, 'tmax']))
+                if g == 'P3':
+                    out.append(dict(entry='fast_nonMarkov_SIR', family='fpp', graph=g, I0=I0, R0=R0, full=True, tmax='inf', ties=True, fxn_args=True,
+                                    tags=['fpp', g, 'fxn-args']))
+                    out.append(dict(entry='fast_nonMarkov_SIR', family='fpp', graph=g, I0=I0, R0=R0, full=True, tmax='inf', ties=True, joint=True, fxn_args=True,
+                                    tags=['fpp', g, 'joint', 'fxn-args']))
                 out.append(dict(entry='fast_nonMarkov_SIR', family='fpp', graph=g, I0=I0, R0=R0, full=True, tmax='inf', ties=True, joint=True,
                                 tags=['fpp', g, 'joint']))
             if edges and len(R0) <= 1:
@@ -76,6 +81,7 @@ def configs(tier):
     for g in ('K2', 'P3', 'K3') + (('P4', 'S3') if tier == 'thorough' else ()):
         for weights in (True, False):
             out.append(dict(entry='nonMarkov_directed_percolate_network_with_timing', family='perc', graph=g, weights=weights, tags=['perc', g]))
+        out.append(dict(entry='nonMarkov_directed_percolate_network_with_timing', family='perc', graph=g, weights=True, fxn_args=True, tags=['perc', g, 'fxn-args']))
         out.append(dict(entry='directed_percolate_network', family='dperc', graph=g, tags=['dperc', g]))
         for zero in ('tau', 'gamma'):
             out.append(dict(entry='directed_percolate_network', family='dperc', graph=g, zero=zero, tags=['dperc', g, 'zero:' + zero]))
@@ -223,6 +229,15 @@ def run_fpp(h, cfg):
         else:
             kw['trans_time_fxn'] = trans_time_fxn
             kw['rec_time_fxn'] = rec_time_fxn
+        if cfg.get('fxn_args'):
+            if cfg.get('joint'):
+                kw['trans_and_rec_time_fxn'] = simruns.expecting(joint, 2, simruns.JOINT_ARGS, 'trans_and_rec_time_fxn')
+                kw['trans_and_rec_time_args'] = simruns.JOINT_ARGS
+            else:
+                kw['trans_time_fxn'] = simruns.expecting(trans_time_fxn, 2, simruns.TRANS_ARGS, 'trans_time_fxn')
+                kw['rec_time_fxn'] = simruns.expecting(rec_time_fxn, 1, simruns.REC_ARGS, 'rec_time_fxn')
+                kw['trans_time_args'] = simruns.TRANS_ARGS
+                kw['rec_time_args'] = simruns.REC_ARGS
         sim = h.call_must_succeed('no-exception', E.fast_nonMarkov_SIR, r.G, **kw)
     else:
         # fast_SIR, weighted / zero-rate path: capture its closures where it hands them to fast_nonMarkov_SIR
@@ -288,8 +303,12 @@ def run_perc(h, cfg):
     r = simruns.setup(dict(cfg, I0=[], R0=[]))
     dur, dl = table(r, dict(cfg, ties=True))
     E = r.EoN
-    H = h.call_must_succeed('no-exception', E.nonMarkov_directed_percolate_network_with_timing, r.G,
-                            lambda u, v: dl[(u, v)], lambda u: dur[u], weights=cfg['weights'])
+    tf, rf, extra = (lambda u, v: dl[(u, v)]), (lambda u: dur[u]), {}
+    if cfg.get('fxn_args'):
+        tf = simruns.expecting(tf, 2, simruns.TRANS_ARGS, 'trans_time_fxn')
+        rf = simruns.expecting(rf, 1, simruns.REC_ARGS, 'rec_time_fxn')
+        extra = dict(trans_time_args=simruns.TRANS_ARGS, rec_time_args=simruns.REC_ARGS)
+    H = h.call_must_succeed('no-exception', E.nonMarkov_directed_percolate_network_with_timing, r.G, tf, rf, weights=cfg['weights'], **extra)
     if H is None:
         return None
     perc_obligations(h, r, H, dur, dl, cfg['weights'])
